@@ -28,17 +28,20 @@ PROP = dict(
 )
 
 MANIFEST = dict(
-    text="Coq (closed under the global context): truth_equiv / truth_equiv_bounded (a forced win under the third-repetition rule = "
-         "membership in the history-free attractor, any game, with a depth bound and positions identified by Position.Equal); "
+    text="Coq (8 theorems, closed under the global context): truth_equiv / truth_equiv_bounded (a forced win under the third-repetition "
+         "rule = membership in the history-free attractor, any game, with a depth bound and positions identified by Position.Equal); "
          "pn_invariant (every node of every tree the PN search loop of the code-shaped model Pn.v reaches: proof number 0 -> forced win, "
-         "disproof number 0 -> not won on its line of play within MaxDepth, children = legal moves, complete unless expand broke off at a "
-         "settling child) and pn_verdict_sound for the entry point pn_run (proven -> forced win and the returned move keeps it; disproven -> "
-         "no win within MaxDepth under the repetition rule), for every node limit / PreserveSolved / MaxDepth, boards up to 8x8. The "
-         "extracted models of prove/pn.go and prove/dfpn.go are replayed against Prover.Prove / DFPNSolver.Prove (verdict and move at L1; "
-         "proof numbers, depth and all counters at L2), and an independent retrograde solver of the complete reachable game graph judges "
-         "every verdict and returned move of PN, PN-squared and DFPN (proven-but-not-won, disproven-but-won, proven-move-loses).",
-    ref='5.6', technique='Coq proof (truth = attractor; PN invariant and verdict soundness over the code-shaped model) + extracted-model/implementation differential + exact retrograde oracle',
+         "disproof number 0 -> not won on its line of play within MaxDepth) and pn_verdict_sound for the entry point pn_run (proven -> "
+         "forced win and the returned move keeps it; disproven -> no win within MaxDepth under the repetition rule), every node limit / "
+         "PreserveSolved / MaxDepth, boards up to 8x8; dfpn_proven_sound over the code-shaped model Dfpn.v (thresholds, table with "
+         "work-based replacement, killer moves, immediate-threat shortcut, repetition) under explicit hypotheses (no hash collision on the "
+         "positions of the run, C19, a live position has a move), also for a reused solver; dfpn_disproven_sound for runs that met no "
+         "repetition. The extracted models of prove/pn.go and prove/dfpn.go (incl. one solver reused over several positions) are replayed "
+         "against Prover.Prove / DFPNSolver.Prove (verdict and move at L1; proof numbers, depth and all counters at L2), and an independent "
+         "retrograde solver of the complete reachable game graph judges every verdict and returned move of PN, PN-squared and DFPN.",
+    ref='5.6', technique='Coq proof (truth = attractor; PN invariant and verdict soundness; DFPN proven / repetition-free disproven soundness, over the code-shaped models) + extracted-model/implementation differential + exact retrograde oracle',
     note="Trusted: Coq kernel, extraction, transcription of prove/pn.go and prove/dfpn.go (validated by execution), generators, the "
-         "retrograde oracle (uses the rules engine to enumerate the graph). Not proved: DFPN soundness (proven under NoCollision; "
-         "disproven across paths = graph-history interaction, hunted by the oracle on shuffle-prone roots), PN-squared, and the "
-         "congruence of Position.Equal that links the PN theorem's line-of-play truth to the attractor (the two _partial corollaries).")
+         "retrograde oracle (uses the rules engine to enumerate the graph). Not proved: DFPN disproven for runs with repetitions "
+         "(graph-history interaction; hunted by the oracle on the cyclic region of the solved graphs), the move returned by DFPN, "
+         "PN-squared, and the congruence of Position.Equal that links the PN theorem's line-of-play truth to the attractor (the two "
+         "_partial PN corollaries); the DFPN theorems carry NoCollision / C19 as hypotheses.")
